@@ -34,6 +34,7 @@ where
     match kind {
         0 => {
             ctx.begin("init: Bump::default()".into());
+            let calls0 = ctx.mon.borrow().alloc_calls;
             let r = guarded(|| Bump::<A, S>::default());
             match r {
                 Ok(b) => built = Some(b),
@@ -43,7 +44,7 @@ where
                     }
                 }
             }
-            if !S::GUARANTEED_ALLOCATED && built.is_some() && ctx.mon.borrow().alloc_calls != 0 {
+            if !S::GUARANTEED_ALLOCATED && built.is_some() && ctx.mon.borrow().alloc_calls != calls0 {
                 ctx.viol("C05", "unallocated_bump_called_base_allocator".into(), "Bump::default() of a not-guaranteed-allocated arena".into());
             }
         }
